@@ -116,7 +116,9 @@ theorem gatherState_rcv (e : Ep) (d : List (List (Nat × Nat))) : (gatherState e
 theorem gather_rcv (e : Ep) (d : List (List (Nat × Nat))) : (gather e d).1.rcv = e.rcv := by
   simp only [gather]
   split
-  · exact gatherShut_rcv e
-  · simp [gatherState_rcv, gatherPrio_rcv]
+  · rfl
+  · split
+    · exact gatherShut_rcv e
+    · simp [gatherState_rcv, gatherPrio_rcv]
 
 end Sd
